@@ -11,6 +11,9 @@ NOTE = ("Trusted: the gosym interpreter and its intrinsics (validated on every r
         "nothing outside them is claimed. Goroutine interleavings are not explored.")
 
 claimed = {
+ "C10": ("DESIGN.md §4 C10", "One harness per node (default, delete, shift, sample, derivative, changeDetect, where, stateCount/stateDuration, eval, groupBy point and batch, flatten, combine) calling the node's real receiver methods on symbolic points (field kinds by Choose, symbolic values/tags/times) against the documented transformation, plus the frame property (every input message, its field map and tag map unchanged after the call)."),
+ "C18": ("DESIGN.md §4 C18", "Stream recording path end to end: WritePointForRecording -> bytes -> ReplayStreamFromIO (bufio.Scanner, line-protocol parser, replay loop interpreted) with symbolic bytes in one attribute at a time, small symbolic ints, boundary values; identical db/rp/name/tags/fields (values and kinds) and the time rule. Known finding for the line-oriented format with an exact class. Batch recordings (JSON) are outside."),
+ "C19": ("DESIGN.md §4 C19", "Framing: WriteMessage/ReadMessage over arbitrary read fragmentation with payload lengths around the varint boundary; data fidelity writePoint/writeBufferedBatch -> Request -> echoed Response -> handleResponse for symbolic points and batches (all field kinds, bitwise floats, group/dimensions/tags/time/batch boundaries). Protobuf wire encoding is overridden under the engine and real in the native replays. Known finding for non-UTF-8 strings."),
  "C02": ("DESIGN.md §4 C02", "Real forkPoint/newFork/delFork fork table, real stream source and FromNode.matches driven by symbolic db/rp/measurement bytes and a Choose-structured history of task start/stop and writes: each from() sink holds exactly the points written while its task ran that it declared and selects, once, in order; other tasks' start/stop cannot change it. FromNode.matches/Point against the filter reference with symbolic predicate results."),
  "C06": ("DESIGN.md §4 C06", "ToGroupID injectivity decided over all tag value bytes (known finding recorded with an exact class predicate); groupedConsumer dispatch against a reference call log; non-interference of stateful nodes (stateCount, stateDuration, derivative, changeDetect, sample, window, where) under every interleaving of two groups with symbolic data, versus the solo run."),
  "C08": ("DESIGN.md §4 C08", "services/alert persistence over an in-harness transactional store with a snapshot per commit: symbolic event levels/times, crash at every transaction boundary (or close-and-restore), restart: every ID resumes at its last recorded non-OK level and continuing yields the same topic state and handler (level, previous level) notifications as the uninterrupted run. Topics.UpdateEvent/RestoreTopic kernels."),
